@@ -738,9 +738,48 @@ def _routine(e, env, case_test, case, depth=0):
     return None
 
 
-def _lapack_flavour(call, flat):
+_DTYPE_LETTER = {"complex": "z", "np.complex128": "z", "np.complex_": "z", "np.cdouble": "z", "numpy.complex128": "z", "'D'": "z",
+                 "'complex128'": "z", "'complex'": "z", "np.dtype(complex)": "z", "np.dtype('complex128')": "z", "np.dtype(np.complex128)": "z",
+                 "float": "d", "np.float64": "d", "np.float_": "d", "np.double": "d", "numpy.float64": "d", "'d'": "d", "'float64'": "d",
+                 "'float'": "d", "np.dtype(float)": "d", "np.dtype('float64')": "d", "np.dtype(np.float64)": "d",
+                 "np.complex64": "c", "'F'": "c", "'complex64'": "c", "np.csingle": "c",
+                 "np.float32": "s", "'f'": "s", "'float32'": "s", "np.single": "s"}
+
+
+def _dtype_kind(e, flat, case_test, case, depth=0):
+    """what a dtype expression denotes in the constructor specialised to one outcome of the (single) test on the interpolator's dtype:
+    'by-dtype' (the interpolator's dtype itself, possibly wrapped in np.dtype), a LAPACK precision letter 'z' 'd' 'c' 's' for a literal
+    spelling, None when not followed.  Locals are followed through their single definition; a conditional expression on the case test
+    is resolved to the arm taken in this case."""
+    if depth > 6 or e is None:
+        return None
+    if isinstance(e, ast.IfExp):
+        if case_test is not None and src(_polarity(e.test)[0]) == case_test:
+            take_body = case != _polarity(e.test)[1]
+            return _dtype_kind(e.body if take_body else e.orelse, flat, case_test, case, depth + 1)
+        return None
+    s_ = src(e)
+    if s_ in ("dtype", "np.dtype(dtype)", "numpy.dtype(dtype)"):
+        return "by-dtype"
+    if s_ in _DTYPE_LETTER:
+        return _DTYPE_LETTER[s_]
+    if isinstance(e, ast.Constant) and isinstance(e.value, str):
+        return _DTYPE_LETTER.get(repr(e.value))
+    if isinstance(e, ast.Name) or (isinstance(e, ast.Attribute) and src(e.value) == "self"):
+        defs_ = [st for st in flat if any(isinstance(n, (ast.Name, ast.Attribute)) and isinstance(getattr(n, "ctx", None), ast.Store) and
+                                          src(n) == s_ for n in ast.walk(st))]
+        if len(defs_) == 1 and isinstance(defs_[0], ast.Assign) and len(defs_[0].targets) == 1 and src(defs_[0].targets[0]) == s_:
+            return _dtype_kind(defs_[0].value, flat, case_test, case, depth + 1)
+        return None
+    if isinstance(e, ast.Call) and src(e.func) in ("np.dtype", "numpy.dtype") and len(e.args) == 1 and not e.keywords:
+        return _dtype_kind(e.args[0], flat, case_test, case, depth + 1)
+    return None
+
+
+def _lapack_flavour(call, flat, case_test=None, case=None):
     """how scipy.linalg.get_lapack_funcs(names, arrays=(), dtype=None) chooses the precision: from the arrays when there are any (the dtype
-    argument is then ignored), otherwise from dtype.  -> ('by-dtype' | 'fixed' | None, text)"""
+    argument is then ignored), otherwise from dtype.  -> ('by-dtype' | 'fixed' | 'z' 'd' 'c' 's' (explicit dtype of that LAPACK letter in
+    this case of the dtype test) | None, text)"""
     arrays = call.args[1] if len(call.args) > 1 else next((k.value for k in call.keywords if k.arg == "arrays"), None)
     dt = call.args[2] if len(call.args) > 2 else next((k.value for k in call.keywords if k.arg == "dtype"), None)
     if arrays is not None and not (isinstance(arrays, (ast.Tuple, ast.List)) and not arrays.elts):
@@ -767,8 +806,14 @@ def _lapack_flavour(call, flat):
         return "fixed", (f"`{src(call)[:90]}` is given the array(s) `{src(arrays)}`: scipy then deduces the LAPACK precision from these arrays"
                          + (" and ignores its `dtype` argument" if dt is not None else "") +
                          "; the band matrix is a real array whatever the interpolator's dtype")
-    if dt is not None and _mentions_dtype(dt):
-        return "by-dtype", ""
+    if dt is not None:
+        # an explicit dtype: follow where it comes from (the interpolator's dtype itself, or a literal chosen by the test on it)
+        k_ = _dtype_kind(dt, flat, case_test, case)
+        if k_ is not None:
+            return k_, f"`{src(call)[:90]}` with `{src(dt)}`"
+        if _mentions_dtype(dt):
+            return "by-dtype", ""
+        return None, ""
     return "fixed", f"`{src(call)[:90]}` is given neither arrays nor the interpolator's dtype: the double-precision real routines are returned"
 
 
@@ -815,18 +860,45 @@ def routine_pair(imod, body, init):
     # routines obtained from scipy's table
     laps = [(f, s_, fl) for f, s_, _st, fl in cases.values() if f[0] == "lapack" or s_[0] == "lapack"]
     if laps:
-        for f, s_, fl in laps:
+        if len(laps) != len(cases):
+            return None, None, node
+        letters = {}
+        for case, (f, s_, _st, fl) in cases.items():
             if f[0] != "lapack" or s_[0] != "lapack" or f[2] is not s_[2]:
                 return None, None, node
             if not (str(f[1]).endswith("gbtrf") and str(s_[1]).endswith("gbtrs")):
                 return None, None, node
-            flav, text = _lapack_flavour(f[2], fl)
+            flav, text = _lapack_flavour(f[2], fl, case_src, case)
             if flav is None:
                 return None, None, node
             if flav == "fixed":
                 return False, (text + ": the real pair is selected for dtype=complex too, and the real solve drops the imaginary part of "
                                "complex data"), node
-        return True, None, node
+            letters[case] = (flav, text)
+        if all(v[0] == "by-dtype" for v in letters.values()):
+            return True, None, node
+        # explicit literal dtypes: which one is taken for complex data is decided by the (understood) test on the interpolator's dtype
+        if case_src is None:
+            flav, text = letters[None]
+            if flav == "d":
+                return False, (text + ": the double-precision real routines are taken whatever the interpolator's dtype: the real solve "
+                               "drops the imaginary part of complex data"), node
+            return None, None, node
+        ct = _complex_test(tests[case_src])
+        if ct is None:
+            return None, None, node
+        pol, kind = ct
+        if kind == "is":
+            return False, (f"the complex pair is selected by `{case_src}`: an identity test is False for np.dtype(complex)/array.dtype, which then "
+                           "silently takes the real LAPACK pair and drops the imaginary part"), node
+        cflav, ctext = letters[pol]
+        rflav, _rtext = letters[not pol]
+        if cflav == "d":
+            return False, (f"for complex data (`{case_src}`) {ctext} selects the real double-precision pair: the real solve drops the "
+                           "imaginary part of complex data"), node
+        if cflav in ("z", "by-dtype") and rflav in ("d", "by-dtype"):
+            return True, None, node
+        return None, None, node
     names = {case: (f[1], s_[1]) for case, (f, s_, _st, _fl) in cases.items()}
     allowed = {(a, b) for a in ("zgbtrf", "dgbtrf") for b in ("zgbtrs", "dgbtrs")}
     if not set(names.values()) <= allowed:
@@ -1236,6 +1308,37 @@ def solves_1d(chk, imod):
             if not ug_rebound:
                 bad = (f"`{ow[0].arg}=True` lets LAPACK solve in place: the caller's data array `ug` (or the row of the caller's 2-D field) is "
                        "replaced by spline coefficients")
+        elif ow and isinstance(rhs, ast.Name) and rhs.id != "ug":
+            # the routine may overwrite a LOCAL right-hand side.  Where is the solution taken from afterwards?
+            # ASSUMPTIONS of VIOLATED: (1) `overwrite_b=True` is a permission, not a guarantee: the f2py wrapper of ?gbtrs works in the
+            # array it is given only when that array already has the routine's dtype (and Fortran layout), otherwise it converts into a
+            # new array, solves there and RETURNS it (scipy's documented behaviour); (2) the local is a copy of the caller's data made
+            # without a dtype, so it has whatever dtype the caller's data have; (3) the returned array is not used: the name it is bound to
+            # is never read; (4) the coefficients are stored from the local, over the whole array.
+            flat_ = _flat(body)
+            defs_ = [x for x in flat_ if any(isinstance(n_, ast.Name) and n_.id == rhs.id and isinstance(n_.ctx, ast.Store) for n_ in ast.walk(x))]
+            copy_of_ug = False
+            if len(defs_) == 1 and isinstance(defs_[0], ast.Assign) and len(defs_[0].targets) == 1 and isinstance(defs_[0].targets[0], ast.Name) \
+                    and isinstance(defs_[0].value, ast.Call):
+                dv = defs_[0].value
+                fn_ = src(dv.func)
+                if fn_ in ("np.array", "np.copy", "np.asfortranarray", "np.ascontiguousarray", "numpy.array", "numpy.copy") and dv.args and \
+                        src(dv.args[0]) == "ug" and len(dv.args) == 1 and not any(k.arg == "dtype" for k in dv.keywords):
+                    copy_of_ug = True
+                elif fn_ == "ug.copy" and not any(k.arg == "dtype" for k in dv.keywords):
+                    copy_of_ug = True
+            ret_read = isinstance(tgt, ast.Name) and any(isinstance(n_, ast.Name) and n_.id == tgt.id and isinstance(n_.ctx, ast.Load)
+                                                         for x in flat_ for n_ in ast.walk(x))
+            ret_dropped = (isinstance(st, ast.Expr) or isinstance(tgt, ast.Name)) and not ret_read
+            stores = [x for x in flat_ if isinstance(x, ast.Assign) and len(x.targets) == 1 and covers_all(x.targets[0])]
+            from_rhs = len(stores) == 1 and isinstance(stores[0].value, ast.Name) and stores[0].value.id == rhs.id and \
+                flat_.index(stores[0]) > flat_.index(st)
+            if not wrong and not unknown and gbtrs and copy_of_ug and ret_dropped and from_rhs and not returns:
+                bad = (f"`{src(c)[:90]}`: the array the routine returns is dropped and the coefficients are taken from `{rhs.id}` "
+                       f"(`{src(stores[0])}`), a copy of the data with the data's own dtype; `{ow[0].arg}=True` is only a permission: LAPACK "
+                       f"works inside `{rhs.id}` only when it already has the routine's dtype (float64 for dgbtrs, complex128 for zgbtrs), "
+                       "for any other data (integer, float32, ...) the wrapper solves in a converted copy and `" + rhs.id +
+                       "` keeps the data: the stored coefficients are the data themselves and do not interpolate them")
         elif isinstance(tgt, ast.Name):
             later = [x for x in _flat(body) if isinstance(x, (ast.Assign, ast.AugAssign)) and "spl" in src(x.targets[0] if isinstance(x, ast.Assign) else x.target)
                      or (isinstance(x, ast.Expr) and "spl" in src(x) and x is not st)]
@@ -1910,6 +2013,7 @@ class Regions:
             raise Undec("for/else", st)
         it = st.iter
         idx_name, elem_name, over = None, None, None
+        subset, before = None, {}
         if isinstance(it, ast.Call) and src(it.func) == "range" and len(it.args) == 1 and isinstance(st.target, ast.Name):
             idx = Idx(st.target.id, sp.Integer(0), self.ival(it.args[0], st), st)
         elif isinstance(it, ast.Call) and src(it.func) == "enumerate" and len(it.args) == 1 and isinstance(st.target, ast.Tuple) and \
@@ -1921,6 +2025,19 @@ class Regions:
             over = self.view(it)
             idx = Idx(f"<row of {src(it)[:20]}>", sp.Integer(0), None, st)
             elem_name = st.target.id
+        elif isinstance(st.target, ast.Name) and self.row_subset(it) is not None:
+            # a loop over a DATA-DEPENDENT subset of the rows (np.flatnonzero(ug.any(axis=1)) ...): the body is read like the loop over all
+            # rows; afterwards every block the loop has changed holds its new state on the selected rows only and its state of before the
+            # loop on the others
+            subset = self.row_subset(it)
+            idx = Idx(st.target.id, sp.Integer(0), subset, st)
+            before = {}
+            for nm, b_ in list(self.bufs.items()):
+                sh = Buf(f"<before the loop>{nm}", b_.dims, b_.extents, b_.initial, b_.from_data)
+                sh.cells = dict(b_.cells)
+                before[nm] = sh
+            for nm, sh in before.items():
+                self.bufs[sh.name] = sh              # registered so that new cuts split the snapshot too
         else:
             if self.mentions_arrays(st):
                 raise Undec(f"loop over `{src(it)[:50]}`", st)
@@ -1952,6 +2069,64 @@ class Regions:
                 raise Undec(f"the iterations of the loop over `{src(st.iter)[:40]}` are not independent on `{n_}`", st)
         for s_ in self.scratch.values():
             s_.valid = False
+        if subset is not None:
+            for nm, sh in before.items():
+                self.bufs.pop(sh.name, None)
+            for nm, b_ in list(self.bufs.items()):
+                sh = before.get(nm)             # a buffer first met inside the loop held its initial state before it
+                for key in list(b_.cells):
+                    newk, oldk = b_.cells[key], (self.cell_get(sh, key) if sh is not None else b_.initial)
+                    if newk == oldk:
+                        continue
+                    if oldk == "zero":
+                        raise Undec(f"the loop over `{src(it)[:50]}` skips rows of `{nm}` that hold a constant fill: whether the skipped rows "
+                                    "already hold the right values is not decided", st)
+                    b_.cells[key] = (f"{KIND_TEXT.get(newk, newk)} on the rows selected by `{src(it)[:50]}` only, on the skipped rows "
+                                     f"{KIND_TEXT.get(oldk, oldk)} (a skipped row is never written)")
+
+    def row_subset(self, it):
+        """`it` selects a data-dependent subset of the row indices of a 2-D array the analysis follows: np.flatnonzero(R) / np.nonzero(R)[0] /
+        np.where(R)[0] with R a reduction of the array (of its absolute value, of a comparison of it) along the other axis, possibly
+        compared with a threshold.  -> number of rows, None when `it` is not of this form"""
+        arg = None
+        if isinstance(it, ast.Call) and src(it.func) in ("np.flatnonzero", "numpy.flatnonzero") and len(it.args) == 1 and not it.keywords:
+            arg = it.args[0]
+        elif isinstance(it, ast.Subscript) and isinstance(it.slice, ast.Constant) and it.slice.value == 0 and isinstance(it.value, ast.Call) and \
+                src(it.value.func) in ("np.nonzero", "np.where", "numpy.nonzero", "numpy.where") and len(it.value.args) == 1 and not it.value.keywords:
+            arg = it.value.args[0]
+        if arg is None:
+            return None
+        if isinstance(arg, ast.Compare) and len(arg.ops) == 1 and isinstance(arg.comparators[0], (ast.Constant, ast.Name, ast.Attribute)):
+            arg = arg.left
+        if not isinstance(arg, ast.Call):
+            return None
+        REDS = ("any", "all", "max", "min", "sum", "ptp", "count_nonzero")
+        X, axis = None, None
+        if isinstance(arg.func, ast.Attribute) and arg.func.attr in REDS and src(arg.func.value) not in ("np", "numpy"):
+            X = arg.func.value
+            axis = arg.args[0] if arg.args else next((k.value for k in arg.keywords if k.arg == "axis"), None)
+        elif isinstance(arg.func, ast.Attribute) and arg.func.attr in REDS and arg.args:
+            X = arg.args[0]
+            axis = arg.args[1] if len(arg.args) > 1 else next((k.value for k in arg.keywords if k.arg == "axis"), None)
+        if X is None or not (isinstance(axis, ast.Constant) and axis.value in (0, 1, -1)):
+            return None
+        while True:
+            if isinstance(X, ast.Call) and src(X.func) in ("np.abs", "abs", "np.absolute", "np.fabs") and len(X.args) == 1:
+                X = X.args[0]
+            elif isinstance(X, ast.Compare) and len(X.ops) == 1 and isinstance(X.comparators[0], ast.Constant):
+                X = X.left
+            else:
+                break
+        v = self.view(X, quiet=True)
+        if v is None or v.ndim != 2 or any(s_[0] == "ix" for s_ in v.sel):
+            return None
+        kept = 0 if axis.value in (1, -1) else 1
+        if kept != 0:
+            return None                     # the indices then number columns: not followed
+        s_ = v.sel[v.order[0]]
+        if not _same(s_[1], 0):
+            return None
+        return s_[2] - s_[1]
 
     def solve(self, st, call, K):
         b = agree.bind_call(call, ["ug", "spl"])
